@@ -23,8 +23,8 @@ from pathlib import Path
 from typing import Any, Callable
 
 ROOT = Path(__file__).resolve().parent.parent
-REPLAYS = ROOT / "replays"
-EVIDENCE = ROOT / "evidence"
+REPLAYS = Path(os.environ.get("VERIF_REPLAY_DIR") or ROOT / "replays")
+EVIDENCE = Path(os.environ.get("VERIF_EVIDENCE_DIR") or ROOT / "evidence")
 WORK = ROOT / ".work"
 KNOWN = ROOT / "known_findings.json"
 NSHARDS = int(os.environ.get("VERIF_SHARDS", "16"))
@@ -337,7 +337,7 @@ def parent_main(pid: str, tier: str, seed: int, only: str | None = None, nshards
                                         "violations": f["violations"]}, indent=1, default=str))
             for v in f["violations"][:3]:
                 lines.append(f"  [{subname}] {v['sub']}: {v['msg']}")
-            lines.append(f"VIOLATION property={pid} replay={path.relative_to(ROOT)}")
+            lines.append(f"VIOLATION property={pid} replay={path.relative_to(ROOT) if path.is_relative_to(ROOT) else path}")
     known_entries = {e["id"]: e for e in load_known(pid)}
     for kid, cnt in sorted(known_all.items()):
         e = known_entries.get(kid, {})
